@@ -436,7 +436,7 @@ func (s *Server) Crashed() (bool, string) {
 	return CrashIn(s.StderrTail(1 << 20))
 }
 
-var frameRe = regexp.MustCompile(`(github\.com/tidwall/[^\s(]+)\(`)
+var frameRe = regexp.MustCompile(`(github\.com/tidwall/\S+?)\((?:0x[0-9a-f]+|\.\.\.|\)|\{)`)
 
 // CrashIn scans a stderr text.
 func CrashIn(text string) (bool, string) {
